@@ -391,3 +391,15 @@ package bigslice
 //@   loop 1 invariant f.reader == old(f.reader) && f.reader.nreads >= old(f.reader.nreads) && old(f.err) == nil && implies(f.reader.nreads > old(f.reader.nreads), f.err == f.reader.lastErr) && implies(f.reader.nreads == old(f.reader.nreads), f.err == nil)
 //@   loop 2 invariant f.reader == old(f.reader) && f.reader.nreads > old(f.reader.nreads) && old(f.err) == nil && f.err == f.reader.lastErr
 //@   loop 1 step upstream-read-only-while-it-has-not-ended: at_head(f.err) == nil && f.reader.nreads == at_head(f.reader.nreads) + 1
+
+// ---- C01: Const's reader hands out its shard's rows once, in order, and then end-of-stream ----
+
+//@ func bigslice.(*constReader).Read (ctx, out) (n, err)
+//@   requires s != nil && wf(out) && wf(s.frame) && distinctCols(out) && crossOK(out, s.frame) && len(out.data) >= 1 && implies(compatible(out, s.frame), sizesAgree(out, s.frame)) && s.frame.len == s.frame.cap
+//@   may_panic
+//@   flag nlarith
+//@   ensures  batch: implies(err != errTypeError, n == min(out.len, old(s.frame.len)))
+//@   ensures  rows-in-order: implies(err != errTypeError, forall(k, 0, len(out.data), forall(r, out.off, out.off + n, ColMem[out.data[k].ptr][r] == old(ColMem[s.frame.data[k].ptr][s.frame.off + (r - out.off)]))))
+//@   ensures  advanced: implies(err != errTypeError, s.frame.data == old(s.frame.data) && s.frame.off == old(s.frame.off) + n && s.frame.len == old(s.frame.len) - n && s.frame.len == s.frame.cap)
+//@   ensures  end-only-after-the-last-row: implies(err != errTypeError, (err == sliceio.EOF) == (old(s.frame.len) == 0) && (err == nil || err == sliceio.EOF))
+//@   modifies s.frame, ColMem
